@@ -44,6 +44,9 @@ SKELETONS = [
     "OC(C)C=CCl", "CC(N)=O", "CSC(C)N", "ClC=CC=CBr", "CC(Br)CC(Cl)C",
     # strained small rings: a ring atom is a substituent of both ends of the double bond, exocyclic angles of ~150 degrees
     "C1=CC1", "CC1=CC1", "CC1(C)C=C1", "CC1(CC)C=C1C", "O=C1C=C1", "C1=CCC1", "C=C1CC1", "CC1=C(C)C1", "C1C2C1C2", "CC1=NC1C", "C12C3C4C1C5C2C3C45", "C1=CC2CC2C1", "FC1=CC1Cl",
+    # delocalised ions and push-pull systems: several equally weighted resonance structures, whose order in RDKit's
+    # resonance supplier depends on the atom numbering
+    "CC(N)=[NH2+]", "NC(N)=[NH2+]", "C=C[CH2+]", "C=C[O-]", "CC1=[NH+]CCN1", "CN(C)C=[N+](C)C", "C[N+](=O)[O-]", "CC(=O)[O-]", "c1cc[nH+]cc1", "CN=[N+]=[N-]", "[NH3+]CC([O-])=O", "C1=CN=NC1", "CC(=O)C=CN", "CC(C)=[NH+]C(C)C",
 ]
 SP_T = "F[Pt@SP{}](Cl)(Br)I"
 TB_T = "F[As@TB{}](Cl)(Br)(I)N"
